@@ -323,6 +323,9 @@ package ircserver
 // ProcessMessage is checked against the template.
 
 //@ func handler
+//@   requires locks-held: i.sessionsMu.writerSem == 1 && i.sessionsMu != i.ConfigMu
+//@   ensures locks-same: i.sessionsMu == old(i.sessionsMu) && i.ConfigMu == old(i.ConfigMu)
+//@   loopinv locks-same: i.sessionsMu == old(i.sessionsMu) && i.ConfigMu == old(i.ConfigMu)
 //@   requires base: wfBase(i) && s != nil && replyOK(reply) && msg != nil
 //@   requires sessions: wfSessions(i)
 //@   requires nicks: wfNicks(i)
@@ -1093,7 +1096,8 @@ package ircserver
 // ---------------------------------------------------------------------------
 // C20: lock discipline. Which mutex protects what (checked at every access in
 // the functions of plan C20; only with lock tracking on).
-//@ guard Session.* by IRCServer.sessionsMu
+// (Id and auth are set when the session is created and never change: reading them needs no lock)
+//@ guard Session.* by IRCServer.sessionsMu except Id,auth
 //@ guard channel.* by IRCServer.sessionsMu
 //@ guard IRCServer.sessions by IRCServer.sessionsMu
 //@ guard IRCServer.nicks by IRCServer.sessionsMu
@@ -1111,3 +1115,14 @@ package ircserver
 //@   requires locks-held: i.sessionsMu.writerSem == 1
 //@ func IRCServer.maybeDeleteChannelLocked
 //@   requires locks-held: i.sessionsMu.writerSem == 1
+// the three mutexes of a server are three objects (NewIRCServer allocates them separately)
+//@ func NewIRCServer
+//@   ensures locks-distinct: result.sessionsMu != result.ConfigMu && result.ConfigMu != result.lastProcessedMu && result.sessionsMu != result.lastProcessedMu
+//@ func IRCServer.Unmarshal
+//@   requires locks-distinct: i.sessionsMu != i.ConfigMu && i.ConfigMu != i.lastProcessedMu && i.sessionsMu != i.lastProcessedMu
+//@ func IRCServer.ProcessMessage
+//@   requires locks-distinct: i.sessionsMu != i.ConfigMu && i.ConfigMu != i.lastProcessedMu && i.sessionsMu != i.lastProcessedMu
+//@ func IRCServer.maybeLogin
+//@   requires locks-held: i.sessionsMu.writerSem == 1 && i.sessionsMu != i.ConfigMu
+//@   ensures locks-same: i.sessionsMu == old(i.sessionsMu) && i.ConfigMu == old(i.ConfigMu)
+//@   loopinv locks-same: i.sessionsMu == old(i.sessionsMu) && i.ConfigMu == old(i.ConfigMu)
